@@ -790,7 +790,14 @@ func (fr *Frame) execBuiltin(bi *ssa.Builtin, c *ssa.CallCommon, resT types.Type
 			vc.fact(fmt.Sprintf("(<= %s 9223372036854775807)", ln))
 			return Val{T: resT, Term: ln}
 		case *types.Slice:
-			return Val{T: resT, Term: vc.sliceLen(vc.S.Sort(xt), vc.term(st, x))}
+			ln := vc.sliceLen(vc.S.Sort(xt), vc.term(st, x))
+			if bi.Name() == "len" {
+				// machine fact: the elements of a slice fit into the address space (len * sizeof(elem) is an int)
+				if sz := elemSize(u.Elem()); sz > 1 {
+					vc.fact(fmt.Sprintf("(<= %s %d)", ln, int64(9223372036854775807)/sz))
+				}
+			}
+			return Val{T: resT, Term: ln}
 		case *types.Map:
 			return Val{T: resT, Term: vc.mapCard(vc.S.Sort(xt), vc.S.Sort(u.Key()), vc.term(st, x))}
 		case *types.Array:
@@ -1008,6 +1015,19 @@ func (vc *VC) typeTag(t types.Type) string {
 		}
 	}
 	return name
+}
+
+// elemSize: the size in bytes of a value of type t on a 64-bit platform (0 if unknown, e.g. a type parameter).
+func elemSize(t types.Type) (sz int64) {
+	defer func() {
+		if recover() != nil {
+			sz = 0
+		}
+	}()
+	if _, isTP := types.Unalias(t).(*types.TypeParam); isTP {
+		return 0
+	}
+	return types.SizesFor("gc", "amd64").Sizeof(t)
 }
 
 // tag of the interface values that stand for reflect.Type descriptors obtained from reflect.TypeOf
